@@ -4,87 +4,9 @@
 From Coq Require Import List ZArith Bool Arith String Lia.
 From BT Require Import Gen.ClassTable Gen.SignSets Gen.Templates.
 From BT Require Import Core.PyVal Core.Expr Core.Hint Core.Check Core.ClassFacts.
+From BT Require Export Core.Induct.
 Import ListNotations.
 Local Open Scope list_scope.
-
-(* ------------------------------------------------------------ induction on hints *)
-Section HintInd.
-  Variable P : hint -> Prop.
-  Hypothesis PAny : P HAny.
-  Hypothesis PCls : forall c, P (HCls c).
-  Hypothesis PShallow : forall c, P (HShallow c).
-  Hypothesis PUnion : forall hs, Forall P hs -> P (HUnion hs).
-  Hypothesis PCont : forall s ch, P ch -> P (HCont s ch).
-  Hypothesis PMap : forall s k v, P k -> P v -> P (HMap s k v).
-  Hypothesis PCounter : forall k, P k -> P (HCounter k).
-  Hypothesis PTuple : forall hs, Forall P hs -> P (HTuple hs).
-  Hypothesis PLiteral : forall vs, P (HLiteral vs).
-  Hypothesis PType : forall cs, P (HType cs).
-  Hypothesis PAnnot : forall mh vs, P mh -> P (HAnnot mh vs).
-
-  Fixpoint hint_ind2 (h : hint) : P h :=
-    match h with
-    | HAny => PAny
-    | HCls c => PCls c
-    | HShallow c => PShallow c
-    | HUnion hs => PUnion hs ((fix go (l : list hint) : Forall P l :=
-                                 match l with [] => Forall_nil P | x :: l' => Forall_cons x (hint_ind2 x) (go l') end) hs)
-    | HCont s ch => PCont s ch (hint_ind2 ch)
-    | HMap s k v => PMap s k v (hint_ind2 k) (hint_ind2 v)
-    | HCounter k => PCounter k (hint_ind2 k)
-    | HTuple hs => PTuple hs ((fix go (l : list hint) : Forall P l :=
-                                 match l with [] => Forall_nil P | x :: l' => Forall_cons x (hint_ind2 x) (go l') end) hs)
-    | HLiteral vs => PLiteral vs
-    | HType cs => PType cs
-    | HAnnot mh vs => PAnnot mh vs (hint_ind2 mh)
-    end.
-End HintInd.
-
-(* ------------------------------------------------------------ induction on objects *)
-Section PyvalInd.
-  Variable P : pyval -> Prop.
-  Hypothesis PNone : P VNone.
-  Hypothesis PBool : forall b, P (VBool b).
-  Hypothesis PInt : forall z, P (VInt z).
-  Hypothesis PFloat : forall z, P (VFloat z).
-  Hypothesis PStr : forall s, P (VStr s).
-  Hypothesis PBytes : forall s, P (VBytes s).
-  Hypothesis PCont : forall c l, Forall P l -> P (VCont c l).
-  Hypothesis PMap : forall c kvs, Forall (fun kv => P (fst kv) /\ P (snd kv)) kvs -> P (VMap c kvs).
-  Hypothesis PCls : forall c, P (VCls c).
-  Hypothesis PObj : forall c attrs, Forall (fun a => P (snd a)) attrs -> P (VObj c attrs).
-
-  Fixpoint pyval_ind2 (v : pyval) : P v :=
-    match v with
-    | VNone => PNone | VBool b => PBool b | VInt z => PInt z | VFloat z => PFloat z
-    | VStr s => PStr s | VBytes s => PBytes s
-    | VCont c l => PCont c l ((fix go (l : list pyval) : Forall P l :=
-                                 match l with [] => Forall_nil P | x :: l' => Forall_cons x (pyval_ind2 x) (go l') end) l)
-    | VMap c kvs =>
-        PMap c kvs ((fix go (l : list (pyval * pyval)) : Forall (fun kv => P (fst kv) /\ P (snd kv)) l :=
-                       match l with
-                       | [] => Forall_nil _
-                       | (k, x) :: l' => Forall_cons (k, x) (conj (pyval_ind2 k) (pyval_ind2 x)) (go l')
-                       end) kvs)
-    | VCls c => PCls c
-    | VObj c attrs =>
-        PObj c attrs ((fix go (l : list (string * pyval)) : Forall (fun a => P (snd a)) l :=
-                         match l with
-                         | [] => Forall_nil _
-                         | (k, x) :: l' => Forall_cons (k, x) (pyval_ind2 x) (go l')
-                         end) attrs)
-    end.
-End PyvalInd.
-
-Lemma val_same_refl v : val_same v v = true.
-Proof.
-  induction v using pyval_ind2; cbn [val_same];
-    try reflexivity; try apply Bool.eqb_reflx; try apply Z.eqb_refl; try apply String.eqb_refl; try apply Nat.eqb_refl.
-  - rewrite Nat.eqb_refl. cbn. induction H as [|x l Hx Hl IH]; [reflexivity|]. now rewrite Hx, IH.
-  - rewrite Nat.eqb_refl. cbn. induction H as [|[k x] l [Hk Hx] Hl IH]; [reflexivity|]. cbn in *. now rewrite Hk, Hx, IH.
-  - rewrite Nat.eqb_refl. cbn. induction H as [|[k x] l Hx Hl IH]; [reflexivity|]. cbn in *.
-    now rewrite String.eqb_refl, Hx, IH.
-Qed.
 
 (* ------------------------------------------------------------ shape lemmas *)
 
